@@ -150,33 +150,40 @@ theorem field_exact_partial (O : Oracles) (R : String → PyVal → Bool) (S : S
     ∃ y y', deser O opts ign f v = .ok y ∧ validate O f y = .ok y' :=
   exact_scalar O R S hS opts ign f v hfrag h
 
-/-- **schema_exact (partial, field level, containers).**  `field_exact_partial` extended to homogeneous
-    `Array[X]` (any size bounds) and `Tuple[X]` without `uniqueItems`, nested to any depth over the exact
-    scalars: every document value the field's schema admits is accepted by `deserialize_single_field`
-    and by the field's validation -/
-theorem field_exact_containers_partial (O : Oracles) (R : String → PyVal → Bool) (S : String → String → Bool)
+/-- **schema_exact (partial, field level: containers and nested classes).**  `field_exact_partial`
+    extended to the fragment `exactF`: homogeneous `Array[X]` (any size bounds) and `Tuple[X]` without
+    `uniqueItems`, and nested Structure classes by `$ref` (no defaults), nested to any depth over the
+    exact scalars.  Every JSON document value (object keys are strings) that the field's schema admits —
+    class references resolved through a faithful definitions table with enough fuel — is not null and
+    is accepted by `deserialize_single_field` and by the field's validation -/
+theorem field_exact_containers_partial (O : Oracles) (S : String → String → Bool)
     (hS : ∀ p s, startAnchored p = true → S p s = true → O.reMatch p s = true)
-    (opts : DeserOpts) (ign : Bool) (f : FieldDecl) (v : PyVal)
-    (hfrag : exactF f = true) (h : jsV R S (dialectFix (emit false f)) v = true) :
-    ∃ y y', deser O opts ign f v = .ok y ∧ validate O f y = .ok y' := by
+    (opts : DeserOpts) (D : Defs) (f : FieldDecl) (n : Nat) (ign : Bool) (v : PyVal)
+    (hfrag : exactF f = true) (hrefs : RefsFaithful D f) (hn : refDepth f ≤ n) (hdoc : jsonDoc v = true)
+    (h : jsValidFuel n D S (dialectFix (emit false f)) v = true) :
+    v.isNone = false ∧ ∃ y y', deser O opts ign f v = .ok y ∧ validate O f y = .ok y' := by
+  unfold jsValidFuel at h
   rw [dialect_fix_field] at h
-  exact c08_exact_field O R S hS opts f ign v hfrag h
+  exact c08_exactN O S hS opts D f n ign v hfrag hrefs hn hdoc h
 
-/-- **schema_exact (partial, class level).**  For every class of `inExactFragment` (flat, over the
-    exact field fragment `exactF` = exact scalars and Array[X] / Tuple[X] over them; no defaults, not a field wrapper), every JSON object (string keys) that the
-    class's schema admits — the schema `structure_to_schema` returns, after the dialect rewrite — and
-    every flag setting of the Deserializer: `Deserializer(cls).deserialize(doc)` succeeds (each member
-    passes its field, required members are present, undeclared members are allowed or absent, the
-    constructor's validation accepts).  Containers and nested classes are not covered (there the
-    schema is NOT exact: findings exact:positional-shorter, exact:map-size, exact:map-key-constraint). -/
-theorem schema_exact_class_partial (O : Oracles) (R : String → PyVal → Bool) (S : String → String → Bool)
+/-- **schema_exact (partial, class level).**  For every class of `inExactFragment` (not a field wrapper,
+    no defaults, fields in `exactF`: exact scalars, Array[X], Tuple[X], nested classes, at any depth),
+    every JSON object that the class's schema admits — the schema and definitions `structure_to_schema`
+    returns, after the dialect rewrite, with fuel covering the nesting of class references — and every
+    flag setting of the Deserializer: `Deserializer(cls).deserialize(doc)` succeeds (each member passes
+    its field, required members are present, undeclared members are allowed or absent, the constructor's
+    validation accepts).  Positional items and sized / key-constrained Maps are not covered: there the
+    schema is NOT exact (findings exact:positional-shorter, exact:map-size, exact:map-key-constraint). -/
+theorem schema_exact_class_partial (O : Oracles) (S : String → String → Bool)
     (hS : ∀ p s, startAnchored p = true → S p s = true → O.reMatch p s = true)
-    (opts : DeserOpts) (cls : FieldDecl) (kvs : List (PyVal × PyVal)) (kw : List (String × PyVal))
-    (hfrag : inExactFragment cls = true) (hkw : kwOfDict kvs = some kw)
-    (h : jsV R S (dialectFix (toSchema cls).1) (.dict kvs) = true) :
+    (opts : DeserOpts) (cls : FieldDecl) (n : Nat) (kvs : List (PyVal × PyVal))
+    (hfrag : inExactFragment cls = true) (hrefs : ClassRefsFaithful (fixedPtrDefs cls) cls)
+    (hn : refDepth cls ≤ n) (hdoc : jsonDoc (.dict kvs) = true)
+    (h : schemaAccepts S cls n (.dict kvs) = true) :
     ∃ x, deserialize O opts cls (.dict kvs) = .ok x := by
+  unfold schemaAccepts jsValidFuel at h
   rw [(dialect_fix_is_emit_true cls).1] at h
-  exact c08_exact_class O R S hS opts cls kvs kw hfrag hkw h
+  exact c08_exact_class O S hS opts (fixedPtrDefs cls) cls n kvs hfrag hrefs hn hdoc h
 
 /-! ### a concrete non-trivial input meets the hypotheses -/
 
@@ -352,18 +359,24 @@ theorem fixed_multiple_of_negative :
     ∧ verdict (flat "K" ["a"] [("a", .integer { mult := some (-2) }), ("b", .boolean)])
         (.inst "K" [("a", .int (-4))]) = true := by decide
 
+def exExactInner : FieldDecl :=
+  .struct { name := "In", required := ["k"], addl := false, accepts := ["In"] }
+    [("k", .integer { min := some ⟨0, 1⟩ }), ("s", .string none (some 2) none)] []
+
 def exExactCls : FieldDecl :=
   flat "K" ["i", "s"] [("i", .integer { min := some ⟨0, 1⟩, max := some ⟨10, 1⟩, sign := .any }),
                        ("s", .string (some 1) (some 3) none), ("b", .boolean),
                        ("e", .enumCls "Color" ["RED", "GREEN"]),
-                       ("l", .seqOf .list (.tupleOf (.integer { max := some ⟨5, 1⟩ }) false) { max := some 2 })]
+                       ("l", .seqOf .list (.tupleOf (.integer { max := some ⟨5, 1⟩ }) false) { max := some 2 }),
+                       ("n", .seqOf .list exExactInner {})]
 
 theorem schema_exact_class_example :
     inExactFragment exExactCls = true
-    ∧ schemaAccepts exS exExactCls 0 (.dict [(.str "i", .int 3), (.str "s", .str "xy"), (.str "e", .str "RED"), (.str "l", .list [.list [.int 1, .int 5], .list []])]) = true
-    ∧ (match deserialize exO {} exExactCls (.dict [(.str "i", .int 3), (.str "s", .str "xy"), (.str "e", .str "RED"), (.str "l", .list [.list [.int 1, .int 5], .list []])]) with
+    ∧ classRefsFaithfulB (fixedPtrDefs exExactCls) exExactCls = true ∧ refDepth exExactCls = 2
+    ∧ schemaAccepts exS exExactCls 2 (.dict [(.str "i", .int 3), (.str "s", .str "xy"), (.str "e", .str "RED"), (.str "l", .list [.list [.int 1, .int 5], .list []]), (.str "n", .list [.dict [(.str "k", .int 2)]])]) = true
+    ∧ (match deserialize exO {} exExactCls (.dict [(.str "i", .int 3), (.str "s", .str "xy"), (.str "e", .str "RED"), (.str "l", .list [.list [.int 1, .int 5], .list []]), (.str "n", .list [.dict [(.str "k", .int 2)]])]) with
        | .ok _ => true | .error _ => false) = true
-    ∧ schemaAccepts exS exExactCls 0 (.dict [(.str "i", .int 11), (.str "s", .str "xy")]) = false := by decide
+    ∧ schemaAccepts exS exExactCls 2 (.dict [(.str "i", .int 11), (.str "s", .str "xy")]) = false := by decide
 
 def exDefaults : FieldDecl :=
   flat "K" ["a"] [("a", .integer {}), ("c", .enumCls "Color" ["RED", "GREEN"]),
